@@ -188,10 +188,12 @@ def opPredict (layout cfg flags hs ws rx ry nums dens data : List Int) : String 
         okG ((sortDir d).map fun e => fmtVol e.1 e.2.2)
   | _, _ => "err BadOp"
 
-/-- `write_output_to_h5` on arbitrary tuples.  names = (dir, base) pairs; dims = (n, c, h, w) per volume -/
+/-- `write_output_to_h5` on arbitrary tuples.  names = (dir, base) pairs; dims = (n, c, h, w) per volume.
+`stale` = an earlier run left files (other shape, other keys) under the names of the volumes at even positions:
+mode "w" replaces them (`C14.write_roundtrip` holds for every directory content), the initial directory is modelled. -/
 def opWrite (flags names dims data : List Int) : String :=
   match flags with
-  | [create, dirExists] =>
+  | [create, dirExists, stale] =>
     let nm := pairs names
     let nv := nm.length
     if dims.length ≠ 4 * nv then "err BadOp" else
@@ -206,8 +208,12 @@ def opWrite (flags names dims data : List Int) : String :=
       let slices := chunksOf (dim v 1 * dim v 2 * dim v 3) d
       (slices.map fun s => (chunksOf (dim v 2 * dim v 3) s).map (toRows (dim v 3)), v)
     let base (v : Nat) : Nat := ((nm.getD v (0, 0)).2).toNat
+    let d0 : Dir (List (Img Int)) :=
+      if stale = 0 then [] else
+        ((List.range nv).filter fun v => v % 2 == 0).foldl (fun d v => writeFile d (base v) "stale" [[[-5, -5], [-5, -5]]]) []
     let dir : Dir (List (Img Int)) :=
-      writeOutput base (fun (vol : List (List (Img Int))) => vol.map fun s => s.headD []) "reconstruction" [] vols
+      writeOutput base (fun (vol : List (List (Img Int))) => vol.map fun s => s.headD []) "reconstruction" d0 vols
+    if dir.any (fun e => e.2.1 != "reconstruction") then "err BadFile" else
     okG ((sortDir dir).map fun e => fmtVol e.1 e.2.2)
   | _ => "err BadOp"
 
